@@ -462,13 +462,24 @@ C04_Complete(L, S) ==
         => \A o \in Expand(xs.req, xs.shallow) : Present(S, xs.src, o) => Present(S, xs.dst, o)
 Inv_C04_Complete == (last.op = "transfer" /\ Idle /\ dev = {}) => C04_Complete(last, store)
 
+Refusal(L) == "exc" \in DOMAIN L
 \* ---- C11 : the result of a transfer tells the truth -----------------------
 \* evaluated when TransferEnd has just happened; S = store after, pre = dst before
 C11_Disjoint(L) == L.transferred \cap L.failed = {}
 C11_Partition(L) == L.transferred \cup L.failed = xs.new
 C11_Arrived(L, S) == \A o \in L.transferred : Intact(S, xs.dst, o)
+\* (with a remote index, files listed by a directory object that is present are trusted to be there - by design; after
+\* an external deletion from the destination, which C11 does not quantify over, only directory objects are demanded)
 C11_AbsentReported(L, S) ==
-    \A o \in Expand(xs.req, xs.shallow) : ~Present(S, xs.dst, o) => (o \in L.failed \/ o \in xs.missing)
+    \A o \in Expand(xs.req, xs.shallow) :
+        (~Present(S, xs.dst, o) /\ (o \in Dirs \/ ~xs.idx \/ xs.dst \notin opened)) => (o \in L.failed \/ o \in xs.missing)
+\* a transfer that finds nothing new returns (transferred = {}, failed = {}) at once: a = the TransferBegin record,
+\* L = the xstatus result, T = stores afterwards.  With a remote index, files under a directory object that is present
+\* are trusted to be there (by design), so after external deletions only directories are demanded
+C11_NoopAbsentReported(T, a, L, op) ==
+    (~Refusal(L) /\ L.new = {}) =>
+        \A o \in Expand(a.req, a.shallow) :
+            (~Present(T, a.dst, o) /\ (o \in Dirs \/ ~a.idx \/ a.dst \notin op)) => o \in L.missing
 C11_PresentUntouched(L) == (L.transferred \cup L.failed) \cap xs.pre = {}
 Inv_C11 ==
     (last.op = "transfer" /\ Idle /\ dev = {}) =>
@@ -480,7 +491,6 @@ Inv_C11 ==
 \* truth about store s in state S as an auditor sees it: an unprotected object whose
 \* bytes do not match its name does not count as there for a local store (C07)
 TrulyThere(S, s, o) == Present(S, s, o) /\ ~(Local(s) /\ S[s][o] = "bad_u")
-Refusal(L) == "exc" \in DOMAIN L
 \* S before, a = the Status action record, L = its result
 C12_StatusExact(S, a, L) ==
     (~Refusal(L) /\ ~a.idx) =>
@@ -489,6 +499,15 @@ C12_StatusExact(S, a, L) ==
            /\ L.missing = ids \ L.exists
 C12_NoStaleDir(S, a, L) ==
     (~Refusal(L) /\ a.idx) => \A d \in L.exists \cap Dirs : Present(S, a.s, d)
+\* "a stale index is cleared": an indexed query that names a directory validates every directory the index holds;
+\* afterwards (R2) the index holds no directory that was not in the store when the query ran
+C12_StaleCleared(S, s, ids, useIdx, R2) ==
+    (useIdx /\ s = IdxStore /\ ids \cap Dirs # {}) => \A d \in R2 \cap Dirs : Present(S, s, d)
+\* the same for a transfer's destination query: a requested directory that is neither new nor missing was reported as
+\* existing in the destination, so it is there
+C12_XferNoStaleDir(S, a, L) ==
+    (~Refusal(L) /\ a.idx /\ a.dst = IdxStore) =>
+        \A d \in (a.req \cap Dirs) \ (L.new \cup L.missing) : Present(S, a.dst, d)
 C12_Compare(S, a, L) ==
     ~Refusal(L) =>
         LET ids == Expand(a.ids, a.shallow)
@@ -535,6 +554,10 @@ C07_IntactUnharmed(S, T) == \A s \in Stores, o \in Oids : Intact(S, s, o) => Int
 StepProps ==
     /\ (act'.op = "Status" => /\ C12_StatusExact(store, act', last') /\ C12_NoStaleDir(store, act', last')
                                /\ C07_QueryDrops(store, store', act', last'))
+    /\ (act'.op = "Status" /\ ~Refusal(last') => C12_StaleCleared(store, act'.s, act'.ids, act'.idx, ridx'))
+    /\ (act'.op = "TransferBegin" => /\ (~Refusal(last') => C12_StaleCleared(store, act'.dst, act'.req, act'.idx, ridx'))
+                                      /\ C12_XferNoStaleDir(store, act', last')
+                                      /\ C11_NoopAbsentReported(store', act', last', opened'))
     /\ (act'.op = "CompareStatus" => C12_Compare(store, act', last'))
     /\ (act'.op = "Gc" => /\ C06_UsedKept(store, store', act', last') /\ C06_ReadOnly(store, store', act', last')
                            /\ C06_Dry(store, store', act', last') /\ C06_Exact(store, store', act', last')
